@@ -30,6 +30,16 @@ pub enum Take {
     Scc,
     /// handle taken from a container's to_vec()
     ToVec { members: Vec<usize> },
+    /// a container of all nodes is serialised and deserialised; the copy is held
+    RoundTrip { cbor: bool },
+    /// a container of the listed nodes goes through get / index / contains / remove + re-insert /
+    /// views / DOT / iter, and is then held
+    GraphOps { members: Vec<usize> },
+    /// a second node object with the key of `u` is inserted by value into a container that has
+    /// `u`: it is rejected and must be released
+    RejectedInsert { u: usize },
+    /// a path or cycle search whose `Path` goes through its whole API and is dropped
+    PathApi { root: usize, target: usize, kind: SKind, cycle: bool },
 }
 
 #[derive(Clone, Copy, Debug, Serialize, Deserialize, PartialEq)]
@@ -183,6 +193,56 @@ fn take<F: Flavour>(w: &World<F>, t: &Take) -> Option<Slot<F>> {
                 F::g_insert(&mut g, x.clone());
             }
             F::g_scc(&g).map(|c| Slot::Nodes(c.into_iter().flatten().collect()))
+        }
+        Take::RoundTrip { cbor } => {
+            let mut g = F::g_new();
+            for x in &w.nodes {
+                F::g_insert(&mut g, x.clone());
+            }
+            let wire = if *cbor { crate::flavour::Wire::Cbor } else { crate::flavour::Wire::Json };
+            match F::g_ser(&g, wire).and_then(|b| F::g_de(&b, wire)) {
+                Ok(copy) => Some(Slot::Graph(copy)),
+                Err(_) => None,
+            }
+        }
+        Take::GraphOps { members } => {
+            let mut g = F::g_new();
+            for k in members {
+                if ok(*k) {
+                    F::g_insert(&mut g, w.nodes[*k].clone());
+                }
+            }
+            for k in 0..n {
+                let _ = F::g_get(&g, k).map(|x| F::out_degree(&x));
+                if F::g_contains(&g, k) {
+                    let _ = F::g_index(&g, k);
+                    let _ = F::g_index_ref(&g, k);
+                }
+            }
+            let _ = (F::g_roots(&g), F::g_leaves(&g), F::g_orphans(&g), F::g_to_vec(&g), F::g_iter(&g), F::g_len(&g), F::g_is_empty(&g));
+            let _ = F::g_to_dot(&g);
+            let _ = F::g_to_dot_attr(&g, crate::flavour::DotSpec { g: true, nmask: 0xffff, emask: 0xffff });
+            if let Some(k) = members.first() {
+                if let Some(x) = F::g_remove(&mut g, *k) {
+                    F::g_insert(&mut g, x);
+                }
+            }
+            Some(Slot::Graph(g))
+        }
+        Take::RejectedInsert { u } if ok(*u) => {
+            let mut g = F::g_new();
+            F::g_insert(&mut g, w.nodes[*u].clone());
+            // a distinct node object with the same key, handed over by value
+            let accepted = F::g_insert(&mut g, F::node_new(*u, crate::payload::NVal::new(7, 9000 + *u as u64)));
+            if accepted {
+                // (C18's business; here only the release of what was handed over matters)
+            }
+            Some(Slot::Graph(g))
+        }
+        Take::PathApi { root, target, kind, cycle } if ok(*root) && ok(*target) => {
+            let sp = spec(*kind, if *cycle { SMode::Cycle } else { SMode::Path }, if *cycle { None } else { Some(*target) });
+            let _ = F::path_info(&w.nodes[*root], &sp);
+            None
         }
         Take::ToVec { members } => {
             let mut g = F::g_new();
@@ -413,7 +473,7 @@ impl Engine for Lifetime {
             let u = rng.below(n);
             let v = rng.below(n);
             let subset = |rng: &mut Rng| -> Vec<usize> { (0..n).filter(|_| rng.chance(2, 3)).collect() };
-            takes.push(match rng.below(12) {
+            takes.push(match rng.below(14) {
                 0..=1 => Take::CloneHandle { u },
                 2..=3 => Take::Edge { u, i: rng.below(3) },
                 4..=5 => Take::Path { root: u, target: v, kind: *rng.pick(&kinds) },
@@ -428,7 +488,13 @@ impl Engine for Lifetime {
                         Take::ToVec { members: subset(rng) }
                     }
                 }
-                _ => Take::ToVec { members: subset(rng) },
+                _ => match rng.below(5) {
+                    0 => Take::RoundTrip { cbor: rng.coin() },
+                    1 => Take::GraphOps { members: subset(rng) },
+                    2 => Take::RejectedInsert { u },
+                    3 => Take::PathApi { root: u, target: v, kind: *rng.pick(&kinds), cycle: rng.chance(1, 3) },
+                    _ => Take::ToVec { members: subset(rng) },
+                },
             });
         }
         let mut drops: Vec<DropWhat> = (0..n).map(DropWhat::Owner).chain((0..takes.len()).map(DropWhat::Slot)).collect();
